@@ -40,7 +40,7 @@ func c16Gen(t *rapid.T) c16Case {
 	n := rapid.IntRange(2, hx.Pick(12, 32)).Draw(t, "goroutines")
 	c := c16Case{Procs: rapid.SampledFrom([]int{1, 2, 4, 16}).Draw(t, "procs"), Yield: rapid.Bool().Draw(t, "yield"), Rounds: hx.Pick(2, 3),
 		Cold: rapid.IntRange(0, 2).Draw(t, "cold") == 0}
-	kinds := []string{"record", "record", "record", "run", "sign", "verifysig", "dumpload", "verify", "loadkey", "startstop", "match", "subst"}
+	kinds := []string{"record", "record", "record", "run", "sign", "verifysig", "dumpload", "verify", "verify", "verify", "loadkey", "startstop", "match", "subst"}
 	// often everybody hammers the same API family
 	focus := ""
 	if rapid.Bool().Draw(t, "focus") {
@@ -118,14 +118,26 @@ func c16World(g int) hx.World {
 	link := hx.MLink{Type: "link", Name: "build", Materials: hx.MArtifacts{}, Products: hx.ArtifactsOf(files), ByProducts: hx.MObj{}, Command: []string{}, Environment: hx.MObj{}}
 	// a second step whose rules read the same in every goroutine's layout (independent objects, equal text)
 	pkg := hx.MLink{Type: "link", Name: "package", Materials: hx.ArtifactsOf(files), Products: hx.ArtifactsOf(files), ByProducts: hx.MObj{}, Command: []string{}, Environment: hx.MObj{}}
-	insp := fmt.Sprintf("insp-g%d", g)
+	// every layout names its inspections alike (the verifier drops <name>.link into the process's working
+	// directory: written, never to be relied upon) and carries its own intermediate CA
+	insp := "final-check"
+	_ = g
 	lay := hx.MLayout{Type: "layout", Expires: hx.FarFuture, Keys: hx.MKeys{k.KeyID: hx.MKeyFromLib(k.Pub())},
 		Steps: []hx.MStep{{Type: "step", Name: "build", PubKeys: []string{k.KeyID}, Threshold: 1, ExpCommand: []string{}, ExpMat: [][]string{{"ALLOW", "*"}}, ExpProd: [][]string{{"ALLOW", "*"}}},
 			{Type: "step", Name: "package", PubKeys: []string{k.KeyID}, Threshold: 1, ExpCommand: []string{},
 				ExpMat:  [][]string{{"MATCH", "nothing", "IN", "sub/dir/", "WITH", "PRODUCTS", "IN", "other//dir", "FROM", "build"}, {"MATCH", "*", "WITH", "PRODUCTS", "FROM", "build"}, {"DISALLOW", "*"}},
 				ExpProd: [][]string{{"MATCH", "*", "WITH", "MATERIALS", "FROM", "package"}, {"DISALLOW", "*"}}}},
 		Inspect: []hx.MInspection{{Type: "inspection", Name: insp, Run: []string{"@EMIT@", "w:checked-" + insp + ":ok"},
-			ExpMat: [][]string{{"MATCH", "*", "IN", "@RUNDIR@", "WITH", "PRODUCTS", "FROM", "build"}, {"DISALLOW", "*"}}, ExpProd: [][]string{{"ALLOW", "*"}}}}}
+			ExpMat: [][]string{{"MATCH", "*", "IN", "@RUNDIR@", "WITH", "PRODUCTS", "FROM", "build"}, {"DISALLOW", "*"}}, ExpProd: [][]string{{"ALLOW", "*"}}},
+			{Type: "inspection", Name: "second-look", Run: []string{"@EMIT@", "sleep:3", "x:0"},
+				ExpMat: [][]string{{"MATCH", "out.txt", "IN", "@RUNDIR@", "WITH", "PRODUCTS", "FROM", "build"}, {"ALLOW", "@RUNDIR@/checked-*"}, {"DISALLOW", "*"}}, ExpProd: [][]string{{"ALLOW", "*"}}}}}
+	if certs, err := hx.BuildPKI(hx.PKISpec{Certs: []hx.PKICert{{Name: "root", IsCA: true, Validity: "valid", KeyKind: "p256"},
+		{Name: fmt.Sprintf("c16-inter-%d", g%4), Issuer: "root", IsCA: true, Validity: "valid", KeyKind: "p256"}}}); err == nil {
+		rk := hx.MKeyFromLib(certs["root"].KeyObject())
+		ik := hx.MKeyFromLib(certs[fmt.Sprintf("c16-inter-%d", g%4)].KeyObject())
+		lay.RootCas = hx.MKeys{rk.KeyID: rk}
+		lay.IntermediateCas = hx.MKeys{ik.KeyID: ik}
+	}
 	wrapper := []string{"legacy", "dsse"}[g%2]
 	return hx.World{Entry: "rundir", Product: []hx.WFile{{Path: "out.txt", Content: files["out.txt"]}},
 		Layout:       hx.WMetaFile{Name: "root.layout", Wrapper: wrapper, Meta: hx.MMeta{Layout: &lay}, Sigs: []hx.WSig{{Key: "ed25519-2"}}},
@@ -266,13 +278,32 @@ func c16Once(st *c16State, op c16Op, g, i int, mode string) string {
 		if err != nil {
 			return "error"
 		}
-		sum, err := intoto.InTotoVerifyWithDirectory(md, b.VerifierKeyMap(), b.LinkDir, target, "", map[string]string{}, nil, false)
+		// one read-only list of additional intermediates, handed to every verification of the process
+		sum, err := intoto.InTotoVerifyWithDirectory(md, b.VerifierKeyMap(), b.LinkDir, target, "", map[string]string{}, c16SharedIntermediates(), false)
 		if err != nil {
 			return "reject"
 		}
 		return res(sum.GetPayload(), nil)
 	}
 	return "?"
+}
+
+var (
+	c16InterOnce sync.Once
+	c16Inters    [][]byte
+)
+
+// c16SharedIntermediates returns the same slice (length 1, spare capacity, as a list built with
+// append has) to every caller: the verifier may read it, nothing else.
+func c16SharedIntermediates() [][]byte {
+	c16InterOnce.Do(func() {
+		c16Inters = make([][]byte, 0, 4)
+		if certs, err := hx.BuildPKI(hx.PKISpec{Certs: []hx.PKICert{{Name: "root", IsCA: true, Validity: "valid", KeyKind: "p256"},
+			{Name: "c16-extra-inter", Issuer: "root", IsCA: true, Validity: "valid", KeyKind: "p256"}}}); err == nil {
+			c16Inters = append(c16Inters, []byte(certs["c16-extra-inter"].PEM))
+		}
+	})
+	return c16Inters
 }
 
 func c16RaceLogSize() int64 {
